@@ -43,7 +43,7 @@ func GenC13(t *rapid.T) *C13Case {
 		}
 	}
 	c := &C13Case{Tree: tree, Flavour: drawInt(t, 0, 255, "flavour")}
-	if drawInt(t, 0, 5, "share") == 0 {
+	if oneIn(t, 6, "share") {
 		c.Share, c.ShareFrom, c.ShareInto = true, genRaw(t), genRaw(t)
 	}
 	n := drawInt(t, 1, 6, "nmods")
